@@ -38,6 +38,14 @@ def mk_handle_class():
     return CH
 
 
+class Anything:
+    """Equal to everything (like unittest.mock.ANY)."""
+    def __eq__(self, other):
+        return True
+
+    __hash__ = object.__hash__
+
+
 VALUES = [None, 0, [], 'res']
 
 
@@ -139,7 +147,7 @@ def run_history(history):
                 _, key, what = op
                 path = key.split('/')
                 if what[0] == 'h':
-                    v = CH(VALUES[what[1] % len(VALUES)] if what[1] < 4 else Falsy())
+                    v = CH(VALUES[what[1] % len(VALUES)] if what[1] < 4 else (Falsy() if what[1] == 4 else Anything()))
                     v.clears = 0
                     handles.append(v)
                     mv = v
@@ -282,13 +290,13 @@ def check_static(root):
 
 def families(pid, tier):
     keys = ['a', 'b', 'a/b', 'a/a', 'a/b/a', 'b/a']
-    vals = [('h', 0), ('h', 1), ('h', 4), ('m', 0), ('m', 1)]
+    vals = [('h', 0), ('h', 1), ('h', 4), ('h', 5), ('m', 0), ('m', 1)]
     ops = [('set', k, v) for k in keys for v in vals]
     ops += [('set', 'a', ('layer',)), ('set', 'a/b', ('layer',)), ('clear', ''), ('clear', 'a'),
             ('access', 'a'), ('access', 'a/b'), ('hclear', 'a'), ('static',)]
     n = 3 if tier != 'thorough' else 4
     if pid == 'C12':
-        ops = [('set', 'a', ('h', i)) for i in range(5)] + [('set', 'a/b', ('h', 0)), ('access', 'a'),
+        ops = [('set', 'a', ('h', i)) for i in range(6)] + [('set', 'a/b', ('h', 0)), ('access', 'a'),
                                                              ('access', 'a/b'), ('hclear', 'a'), ('static',)]
         n += 1
     if pid == 'C17':
